@@ -62,7 +62,7 @@ func c08CompMode(comp string) string {
 	switch comp {
 	case "zeros", "takeover-text":
 		return "takeover"
-	case "no-takeover", "bfinal", "stored-open":
+	case "no-takeover", "bfinal", "stored-open", "bfinal-tail":
 		return "no-takeover"
 	}
 	return ""
@@ -92,7 +92,7 @@ func c08Payload(comp string, size, idx int) []byte {
 	switch comp {
 	case "zeros":
 		return make([]byte, size)
-	case "no-takeover", "bfinal", "stored-open":
+	case "no-takeover", "bfinal", "stored-open", "bfinal-tail":
 		// compressible text with some variation
 		b := make([]byte, size)
 		for i := range b {
@@ -281,7 +281,7 @@ func c08OneP(c *fw.Ctx, cs c08Case, prop string) {
 	}
 	desc := fmt.Sprintf("%+v", cs)
 	masked := !cs.Client
-	def := &deflate.Deflater{NoContextTakeover: cs.Comp == "no-takeover" || cs.Comp == "bfinal"}
+	def := &deflate.Deflater{NoContextTakeover: cs.Comp == "no-takeover" || cs.Comp == "bfinal" || cs.Comp == "bfinal-tail"}
 	// the limit in force per message is known before the stream is built
 	var in []byte
 	limits := make([]int64, len(cs.Msgs))
@@ -297,7 +297,11 @@ func c08OneP(c *fw.Ctx, cs c08Case, prop string) {
 			payloads[i] = c08JSONDoc(cs.API, m.Size)
 		}
 		wire := payloads[i]
-		if cs.Comp == "bfinal" {
+		if cs.Comp == "bfinal-tail" {
+			// a final deflate block early in the message, followed by 8 MiB that carry no
+			// data (discarded by the receiver): what is delivered is the few bytes in front
+			wire = append(def.MessageBFinal(payloads[i]), make([]byte, 8<<20)...)
+		} else if cs.Comp == "bfinal" {
 			// the sender ends every message with a BFINAL=1 block (RFC 7692 7.2.3.4)
 			wire = def.MessageBFinal(payloads[i])
 		} else if cs.Comp == "stored-open" {
@@ -600,6 +604,15 @@ func c08Cases(thorough bool) []c08Case {
 				m2 := c08Msg{Size: 10, Framing: "one", SetLimit: true, Limit: 1024}
 				m3 := c08Msg{Size: 10, Framing: "one"}
 				out = append(out, c08Case{Kind: "limit", Client: client, Comp: comp, API: api, Msgs: []c08Msg{m1, m2, m3}})
+			}
+		}
+	}
+	// a message that ends early in a huge frame
+	for _, client := range []bool{false, true} {
+		for _, api := range []string{"read", "reader"} {
+			for _, fr := range []string{"one", "split-at-limit"} {
+				m := c08Msg{Size: 5, Framing: fr, SetLimit: true, Limit: 1024}
+				out = append(out, c08Case{Kind: "limit", Client: client, Comp: "bfinal-tail", API: api, Msgs: []c08Msg{m}})
 			}
 		}
 	}
